@@ -10,17 +10,17 @@ PROPS['C02'] = dict(
                 '(incl. negative long sizes: caller misuse), emulators other than MAME/GENS, more than 2 chips; key-ons are counted from register 0x28 writes'),
     rule=('fuzz/sweep: one case = one image into the three loaders (+ a short play when accepted); play: one case = one accepted bank / OPNI / '
           'opn2_setInstrument instrument played through the full script. distinct = distinct (input class, three loader outcomes, error text) tuples '
-          'plus distinct (instrument field extremes, channel kind + key + velocity, controller state) tuples that produced a key-on write'),
+          'plus distinct (instrument field at an extreme, channel kind + key [+ velocity], controller state) tuples that produced a key-on write (register 0x28)'),
     floor=300,
     assumptions=['ASan+UBSan(bounds,null,div0) report = memory error; a single call needing > 1 s CPU (case budget 20 s) stands in for "bounded time"',
                  'a single allocation request > 256 MiB, or > 64 MiB live-heap growth, inside one loader call for an input <= 64 KiB counts as disproportionate memory',
-                 '*error may stay untouched or be set to WOPN_ERR_OK when a bank is accepted (three-valued)'],
+                 '*error may stay untouched or be set to WOPN_ERR_OK when a bank is accepted; 0 or -1 for an empty block; version reported by an accepted file; noteOn return value (all three-valued)'],
     stages=[
-        dict(name='fuzz', variant='asan', harness='c02_banks.cpp', quick=16000, thorough=150000),
+        dict(name='fuzz', variant='asan', harness='c02_banks.cpp', quick=16000, thorough=120000),
         dict(name='sweep', variant='asan', harness='c02_banks.cpp', quick=8000, thorough=8000, opts=dict(step=37)),        # space = 7934 cases
         dict(name='sweep-dense', variant='asan', harness='c02_banks.cpp', quick=0, thorough=27600, opts=dict(step=7)),  # space = 27564 cases
-        dict(name='play', variant='asan', harness='c02_banks.cpp', quick=4000, thorough=40000),
-        dict(name='fuzz-nd', variant='asan-nd', harness='c02_banks.cpp', quick=0, thorough=50000),
-        dict(name='play-nd', variant='asan-nd', harness='c02_banks.cpp', quick=0, thorough=15000),
+        dict(name='play', variant='asan', harness='c02_banks.cpp', quick=4000, thorough=30000),
+        dict(name='fuzz-nd', variant='asan-nd', harness='c02_banks.cpp', quick=0, thorough=40000),
+        dict(name='play-nd', variant='asan-nd', harness='c02_banks.cpp', quick=0, thorough=10000),
     ],
 )
